@@ -45,12 +45,21 @@ type gen struct {
 	pkgs    []string
 	wss     []*wsInfo // all generated workspaces
 	big     bool
+	// shapes on which the compiler went wrong before the repairs of F26, F27, F29; at most one of the
+	// first two per schema, most schemas have none
+	sharedNames bool // entity names are numbered per package: the same name occurs in several packages
+	unqualInh   bool // INHERITS of the own package is mostly written without the package
+	descRefs    bool // descriptors hold reference fields
 }
 
 func (g *gen) name(pkg, prefix string) string {
-	// one counter for the whole application: entity names are distinct over all packages
-	g.counter[""]++
-	return fmt.Sprintf("%s%d", prefix, g.counter[""])
+	// one counter for the whole application (entity names distinct over all packages), or one per package
+	k := ""
+	if g.sharedNames {
+		k = pkg
+	}
+	g.counter[k]++
+	return fmt.Sprintf("%s%d", prefix, g.counter[k])
 }
 
 // all workspaces visible from w (itself, ancestors transitively)
@@ -70,6 +79,14 @@ func visible(w *wsInfo) []*wsInfo {
 	}
 	walk(w)
 	return res
+}
+
+// the name after INHERITS: package-qualified, or - own package, in a schema of the unqualInh shape - bare
+func (g *gen) inhRef(from string, n named) *QRef {
+	if g.unqualInh && n.pkg == from && g.r.Chance(2, 3) {
+		return &QRef{Name: n.name}
+	}
+	return &QRef{Pkg: n.pkg, Name: n.name}
 }
 
 func (g *gen) ref(from string, n named) QRef {
@@ -239,7 +256,7 @@ func (g *gen) nestedTable(w *wsInfo, pkg, rootKind string, depth int) (*Table, [
 		for _, v := range visible(w) {
 			for _, p := range v.tables {
 				if p.abstract && p.root && p.kind == nk && (p.pkg == pkg || !p.hasNested) && t.Inh == nil {
-					t.Inh = &QRef{Pkg: p.pkg, Name: p.name} // always package-qualified
+					t.Inh = g.inhRef(pkg, named{p.pkg, p.name})
 					for _, m := range p.members {
 						used[m] = true
 					}
@@ -289,7 +306,7 @@ func (g *gen) rootTable(w *wsInfo, abstract bool) {
 	}
 	if len(parents) > 0 && g.r.Chance(1, 2) {
 		p := kit.Pick(g.r, parents)
-		t.Inh = &QRef{Pkg: p.pkg, Name: p.name} // always package-qualified
+		t.Inh = g.inhRef(pkg, named{p.pkg, p.name})
 		info.kind, info.single = p.kind, p.single
 		info.hasNested = p.hasNested
 		for _, m := range p.members {
@@ -751,14 +768,14 @@ func (g *gen) workspace(pkg string, forceAbstract bool) *wsInfo {
 		}
 		if !dup {
 			w.anc = append(w.anc, x)
-			w.ws.Inh = append(w.ws.Inh, QRef{Pkg: x.pkg, Name: x.ws.Name}) // always package-qualified
+			w.ws.Inh = append(w.ws.Inh, *g.inhRef(pkg, named{x.pkg, x.ws.Name}))
 		}
 	}
+	descUsed := map[string]bool{}
 	if !w.ws.Abstract && g.r.Chance(1, 3) {
-		fs := []Field{}
-		used := map[string]bool{}
+		fs := []DescItem{}
 		for i := g.r.Intn(4); i > 0; i-- {
-			fs = append(fs, g.field(g.member(used), true))
+			fs = append(fs, DescItem{Field: g.field(g.member(descUsed), true)})
 		}
 		w.ws.Desc = &fs
 	}
@@ -814,6 +831,31 @@ func (g *gen) workspace(pkg string, forceAbstract bool) *wsInfo {
 			w.ws.Items = append(w.ws.Items, WsItem{Use: &n})
 		}
 	}
+	// reference fields of the descriptor: targets are concrete tables the workspace sees that a CDoc may refer to
+	if w.ws.Desc != nil && g.descRefs {
+		targets := concreteTables(w)
+		for i := 1 + g.r.Intn(2); i > 0; i-- {
+			rf := &RefF{Name: g.member(descUsed), NotNull: g.r.Chance(1, 4), Refs: []QRef{}}
+			for k := g.r.Intn(3); k > 0 && len(targets) > 0; k-- {
+				if t := kit.Pick(g.r, targets); refAllowed("CDoc", t.kind) {
+					q := g.ref(pkg, named{t.pkg, t.name})
+					dup := false
+					for _, x := range rf.Refs {
+						dup = dup || x == q
+					}
+					if !dup {
+						rf.Refs = append(rf.Refs, q)
+					}
+				}
+			}
+			fs := append(*w.ws.Desc, DescItem{Ref: rf})
+			if g.r.Chance(1, 2) && len(fs) > 1 { // not always last
+				j := g.r.Intn(len(fs))
+				fs[j], fs[len(fs)-1] = fs[len(fs)-1], fs[j]
+			}
+			w.ws.Desc = &fs
+		}
+	}
 	g.wss = append(g.wss, w)
 	return w
 }
@@ -828,6 +870,13 @@ func GenSchema(r *kit.Rng, big bool) Schema {
 	case x >= 6:
 		npkg = 2
 	}
+	switch r.Intn(8) {
+	case 0:
+		g.sharedNames = true
+	case 1:
+		g.unqualInh = true
+	}
+	g.descRefs = r.Chance(1, 2)
 	names := []string{"app1", "liba", "libb"}[:npkg]
 	pkgs := make([]Pkg, npkg)
 	// later packages first: earlier ones refer to them
